@@ -40,7 +40,9 @@ fn craft_wm_codes(freq: &mut HashMap<usize, u32>, sigma: usize) -> Vec<PrefixCod
 
     f.sort_by_key(|x| x.1);
 
-    let mut c = vec![0; alph_size];
+    // a single-symbol alphabet gets a 1-bit code, which is not a complete prefix code:
+    // the table then holds more codes (2) than symbols (1)
+    let mut c = vec![0; alph_size * 2];
     let mut assignments = vec![PrefixCode { content: 0, len: 0 }; sigma + 1];
     let mut m = 1; //how many codes we have so far
     let mut l = 0;
